@@ -200,4 +200,8 @@ pub fn run(cfg: &Cfg, rep: &mut Report) {
       });
     }
   }
+
+  // thread part: terminating thread vs unsubscribing thread on finalize_threads (baton scheduler)
+  let n = cfg.n(6_000, 250_000);
+  super::thr::campaign(cfg, rep, "thr", n, 0xC15F, &mut |r: &mut Rng| super::thr::random_scen(r, 10), &|o, _| super::thr::finalize_oracle(o));
 }
